@@ -55,6 +55,10 @@ MODELS = {
     "small-literals": ("c.ca = 0.0002\nc.v = -80",
                        "[c]\ndot(ca) = -0.0000518213477 * ica + 0.0123456789012 * (0.0001 - ca) + 1.23456789e-9\nica = gca * (v - 65.4321098765)\n    gca = 0.09\n"
                        "dot(v) = -ica * 123456.789012 + 9.87654321e15 * 1e-16\n"),
+    # units that carry a multiplier which is no SI prefix (minute, mmHg, mL/min): Myokit writes them as `Pa (133.322)`
+    "unit-multipliers": ("c.P = 80\nc.V = 0.1",
+                         "[c]\ndot(P) = (Q - P / R) / C\n    in [Pa (133.322)]\nQ = 5\n    in [m^3/s (1.67e-08)]\nR = 1.1\n    in [Pa (133.322)]\n"
+                         "C = 1.5\n    in [mL]\ndot(V) = -k * V\n    in [mV]\nk = 0.25\n    in [1/ms]\ntau = 2\n    in [s (60)]\n"),
     "constant-expressions": ("c.x = 1",
                              "[c]\ndot(x) = -r * x + s\nr = 1 / 4\ns = 2 * k\nk = 3\n"),
 }
@@ -252,6 +256,18 @@ def work(task, prop=PROP, back=True):
             check_against_myokit(prog, view, back, "back", extra_dom=import_dom)
         else:
             prog.fact("back|converted", back.count_states() == len(ode2.states), "BackStates", "state count changed in back conversion")
+        # units: every state / constant of the original that carries a unit has the same unit after import + save + reload +
+        # back conversion (myokit.Unit equality: exponents and multiplier)
+        by_uname = {v.uname(): v for v in back.variables(deep=True)}
+        by_name = {v.name(): v for v in back.variables(deep=True)}
+        for v in ref.variables(deep=True):
+            if v.unit() is None or v.binding() is not None or not (v.is_state() or (v.rhs().is_literal() and not v.rhs().references())):
+                continue
+            w = by_uname.get(v.uname()) or by_name.get(v.uname()) or by_name.get(v.name())
+            if w is None:
+                continue
+            prog.fact(f"back|unit|{v.qname()}", w.unit() is not None and w.unit() == v.unit(), "UnitChanged",
+                      f"unit of {v.qname()}: {v.unit()} in the Myokit model, {w.unit()} after import and back conversion")
     except Exception as e:
         prog.fact("back", False, "BackConversionRaised", f"gotran_to_myokit raised {type(e).__name__}: {str(e)[:200]}")
     prog.nontrivial = len(ode2.intermediates) > 0
